@@ -14,7 +14,9 @@ use crate::verif::io::pipe;
 use crate::verif::props::c06::pseudo_bytes;
 use crate::verif::rig::exec::{block_on_ready, poll_once};
 use crate::verif::wire::link as rl;
-use crate::verif::wire::transport::{expected_fragments, expected_fragments_ex, expected_fragments_policy, segment, Segment};
+use crate::verif::wire::transport::{
+    expected_fragments, expected_fragments_ex, expected_fragments_policy, segment, Segment,
+};
 use proptest::prelude::*;
 use serde::{Deserialize, Serialize};
 
@@ -151,7 +153,11 @@ pub fn lib_read_ex(
                     },
                     PhysAddr::None => 0,
                 };
-                out.push(((f.info.addr.link.raw_value() << 1) | peer, b, f.data.to_vec()));
+                out.push((
+                    (f.info.addr.link.raw_value() << 1) | peer,
+                    b,
+                    f.data.to_vec(),
+                ));
             }
         }
     }
@@ -699,8 +705,19 @@ impl Prop for Mutated {
                 if let Mutation::PartialDatagram(i) = m {
                     let k = idx(*i, v.len() + 1);
                     let next_peer = v.get(k).and_then(|p| p.peer).unwrap_or(0);
-                    let whole = rl::encode(0xC4, OUTSTATION, MASTER_A, &[0xC0, 0xC0, 0x01, 0x3C, 0x02, 0x06]);
-                    v.insert(k, Piece { data: whole[..whole.len() / 2].to_vec(), peer: Some(next_peer ^ 1) });
+                    let whole = rl::encode(
+                        0xC4,
+                        OUTSTATION,
+                        MASTER_A,
+                        &[0xC0, 0xC0, 0x01, 0x3C, 0x02, 0x06],
+                    );
+                    v.insert(
+                        k,
+                        Piece {
+                            data: whole[..whole.len() / 2].to_vec(),
+                            peer: Some(next_peer ^ 1),
+                        },
+                    );
                     out.label("partial_datagram_from_the_other_peer");
                 }
             }
@@ -743,10 +760,11 @@ impl Prop for Mutated {
         );
         // where the statement leaves a choice (an exact duplicate of the previous segment: discard it or give up the
         // fragment; broadcast segments: one segment only, or reassembled like any others) every consistent choice is right
-        let alternatives: Vec<Vec<(u16, Option<u16>, Vec<u8>)>> = [(true, false), (false, true), (true, true)]
-            .iter()
-            .map(|(d, b)| expected_fragments_policy(&segs_enc, case.rx_buffer as usize, *d, *b))
-            .collect();
+        let alternatives: Vec<Vec<(u16, Option<u16>, Vec<u8>)>> =
+            [(true, false), (false, true), (true, true)]
+                .iter()
+                .map(|(d, b)| expected_fragments_policy(&segs_enc, case.rx_buffer as usize, *d, *b))
+                .collect();
         if got != exp && alternatives.iter().any(|a| *a == got) {
             out.label("another_admissible_policy");
         } else if got != exp {
